@@ -64,6 +64,40 @@ Theorem c07_total : forall local remote s, handle_incoming local remote s <> HPa
 Proof. exact handle_incoming_total. Qed.
 Print Assumptions c07_total.
 
+(* ---- readers that deliver the last bytes together with the end error ----
+   (n > 0 and err = io.EOF in one Read call: allowed by the io.Reader contract,
+   done by quic-go streams and iotest.DataErrReader; de = true in the model)
+
+   Full statement, which the code does NOT satisfy for such readers:
+     forall pid payload ch local remote, pid_ok pid -> size within limit ->
+       handle_incoming_de true local remote (ch, marshal_header pid ++ payload)
+       = Dispatch pid local remote payload.
+   It holds whenever something follows the header (_partial) and fails for
+   every header-only stream (_refuted): readAtLeast in establish-header.go
+   tests err before counting nr and drops the final bytes. *)
+Theorem c07_chunking_independent_dataerr : forall de local remote ch1 ch2 D,
+  handle_incoming_de de local remote (ch1, D) = handle_incoming_de de local remote (ch2, D).
+Proof. intros. rewrite !handle_incoming_de_pure. reflexivity. Qed.
+Print Assumptions c07_chunking_independent_dataerr.
+
+Theorem c07_roundtrip_dataerr_partial : forall pid payload ch local remote,
+  pid_ok pid -> Z.of_nat (length (marshal_body pid)) <= stream_establish_max -> payload <> [] ->
+  handle_incoming_de true local remote (ch, marshal_header pid ++ payload) = Dispatch pid local remote payload.
+Proof. exact handle_de_roundtrip. Qed.
+Print Assumptions c07_roundtrip_dataerr_partial.
+
+Theorem c07_roundtrip_dataerr_refuted : forall pid ch local remote,
+  pid <> [] -> Z.of_nat (length (marshal_body pid)) <= stream_establish_max ->
+  handle_incoming_de true local remote (ch, marshal_header pid) = Closed E_EOF.
+Proof. exact handle_de_header_only. Qed.
+Print Assumptions c07_roundtrip_dataerr_refuted.
+
+Example c07_dataerr_witness :
+  pid_ok [97] /\ Z.of_nat (length (marshal_body [97])) <= stream_establish_max /\
+  handle_incoming [1] [2] ([]%nat, marshal_header [97] ++ []) = Dispatch [97] [1] [2] [] /\
+  handle_incoming_de true [1] [2] ([]%nat, marshal_header [97] ++ []) = Closed E_EOF.
+Proof. repeat split; try discriminate; vm_compute; reflexivity. Qed.
+
 (* non-vacuity *)
 Example c07_pid_ok_example : pid_ok [47; 195; 169; 240; 159; 152; 128] /\ ~ pid_ok [] /\ ~ pid_ok [237; 160; 128].
 Proof. repeat split; try discriminate; intros [A B]; [congruence|discriminate]. Qed.
